@@ -614,7 +614,11 @@ RETURNS_LISTS = ['ret_literal', 'ret_nested_literal', 'ret_table', 'ret_callee',
                  'ret_readonly', 'ret_comp', 'ret_param', 'ret_pair', 'ident_pair', 'slices', 'nested_lists']
 
 # everything that takes or returns containers
-BOUNDARY = RETURNS_LISTS + ['deep', 'mut_list', 'share_call', 'dot', 'sum_enum', 'use_pass_list', 'poly', 'trans']
+BOUNDARY = RETURNS_LISTS + ['deep', 'mut_list', 'share_call', 'dot', 'sum_enum', 'use_pass_list', 'poly', 'trans',
+                            'narrow', 'narrow_neg', 'narrow_all', 'ident']
+
+# functions whose value under one context may meet what was kept from another: the context ladder
+LADDER = ['tenth', 'consts', 'circle', 'muladd', 'extremes', 'helper_noctx']
 
 SPECIAL = ['circle', 'consts', 'muladd', 'muladd16', 'pinned32', 'narrow', 'extremes', 'tenth', 'use_table', 'uses_closure', 'deep', 'ret_param', 'via_prim', 'calls_failing',
            'calls', 'pinned_rtz16', 'narrow_neg', 'tenth16', 'use_pass_list', 'shadowing', 'ident_pair', 'ret_pair',
